@@ -873,6 +873,12 @@ impl<VM: VMBinding> ImmixSpace<VM> {
         Some((start, end))
     }
 
+    /// The line state that hole search treats as unavailable (verification hook).
+    #[cfg(feature = "mmtk_verif")]
+    pub fn verif_line_unavail_state(&self) -> u8 {
+        self.line_unavail_state.load(Ordering::SeqCst)
+    }
+
     pub fn is_last_gc_exhaustive(&self, did_defrag_for_last_gc: bool) -> bool {
         if self.is_defrag_enabled() {
             did_defrag_for_last_gc
